@@ -34,3 +34,20 @@ func DumpSites(u *ir.Universe, fn *ssa.Function) {
 		})
 	}
 }
+
+// DumpExprGuards prints exprGuardsOf for every return of fn (debug aid).
+func DumpExprGuards(u *ir.Universe, fn *ssa.Function) {
+	c := &Ctx{U: u, R: report.New("dbg", "quick", 0)}
+	for _, ret := range ir.NormalReturns(fn) {
+		var rs []string
+		for i := range ret.Results {
+			rs = append(rs, c.exprDesc(ir.ReturnResult(ret, i)))
+		}
+		fmt.Printf("%s return %v\n   guards: %q\n", u.InstrPos(ret), rs, c.exprGuardsOf(fn, ret))
+	}
+	for _, l := range ir.Loops(fn) {
+		if l.Elem != nil {
+			fmt.Printf("loop over %s elem %s complete=%v\n", c.exprDesc(l.Over), c.exprDesc(l.Elem), l.Complete)
+		}
+	}
+}
